@@ -11,6 +11,7 @@ import (
 
 	"verif/harness/adjdrv"
 	"verif/harness/convdrv"
+	"verif/harness/injdrv"
 	"verif/harness/isolate"
 	"verif/harness/muxdrv"
 	"verif/harness/ocidrv"
@@ -191,6 +192,15 @@ func main() {
 		out := fs.String("out", "", "trace file")
 		fs.Parse(args)
 		if err := convdrv.Run(*in, *out); err != nil {
+			fail(err)
+		}
+	case "inject":
+		fs := flag.NewFlagSet(mod, flag.ExitOnError)
+		in := fs.String("in", "", "scenarios")
+		out := fs.String("out", "", "trace file")
+		bin := fs.String("bindir", "", "directory with the built sample plugin binaries")
+		fs.Parse(args)
+		if err := injdrv.Run(*in, *out, *bin); err != nil {
 			fail(err)
 		}
 	default:
